@@ -224,12 +224,14 @@ def simplePathsFrom (G : MG α) (t : α) : Nat → List α → α → List (List
     else here ++ ((G.children cur).filter (fun c => c ∉ path ∧ c ≠ cur)).flatMap
       (fun c => simplePathsFrom G t fuel (cur :: path) c)
 
-/-- `_get_nodes_in_directed_paths_cyclic` (via `nx.all_simple_paths`) -/
+/-- `_get_nodes_in_directed_paths_cyclic` (via `nx.all_simple_paths`); after `fix:` 2ae6e11 the trivial path
+`[s]` that networkx yields for `s = t` is dropped (`if len(causal_path) > 1`).  The lookup of both endpoints
+(`NodeNotFound`) happens for every pair of the product, also for `s = t`. -/
 def nodesInDirectedPathsCyclic (G : MG α) (S T : List α) : Except Err (List α) :=
   if S.isEmpty || T.isEmpty then .ok []
   else if S.all (· ∈ G.nodes) && T.all (· ∈ G.nodes) then
     .ok (dedup' (S.flatMap (fun s => T.flatMap (fun t =>
-      (simplePathsFrom G t (G.nodes.length + 1) [] s).flatten))))
+      ((simplePathsFrom G t (G.nodes.length + 1) [] s).filter (fun p => p.length > 1)).flatten))))
   else .error (.internal "NodeNotFound")
 
 /-- `get_nodes_in_directed_paths` -/
